@@ -31,6 +31,8 @@ def tz(x):
 _PI_FLOATS = {_math.pi: PIq, _math.pi / 180.0: PIq / 180, 180.0 / _math.pi: Fraction(180) / PIq, _math.pi / 2: PIq / 2,
               2 * _math.pi: 2 * PIq, -_math.pi: -PIq, _math.pi / 360.0: PIq / 360}
 
+MULMODE = ["nra"]     # "uf": products of two symbolic values become the uninterpreted commutative umul (symcore)
+
 class SymBool:
     def __init__(s, t): s.t = t
     def __bool__(s): return EX.branch(s.t)
@@ -59,7 +61,9 @@ class Sym:
     __radd__ = __add__
     def __sub__(s, o): return s._b(o, lambda a, b: a - b)
     def __rsub__(s, o): return s._b(o, lambda a, b: b - a)
-    def __mul__(s, o): return s._b(o, lambda a, b: a * b)
+    def __mul__(s, o):
+        if MULMODE[0] == "uf" and isinstance(o, Sym): return Sym(symcore.umul(s.t, o.t))
+        return s._b(o, lambda a, b: a * b)
     __rmul__ = __mul__
     def __truediv__(s, o):
         return s._b(o, lambda a, b: a / b)
@@ -179,7 +183,7 @@ def inv3(m, name=None):
 class SymArray(_np.ndarray):
     """object array whose .astype(int) keeps the (integer-valued) symbolic elements"""
     def astype(self, dtype, *a, **k):
-        if dtype in (int, _np.int64, _np.int32, "i", _np.intp) and self.dtype == object and any(isinstance(v, Sym) for v in self.ravel()):
+        if dtype in (int, float, _np.float64, _np.int64, _np.int32, "i", _np.intp) and self.dtype == object and any(isinstance(v, Sym) for v in self.ravel()):
             return self
         return _np.asarray(self).astype(dtype, *a, **k)
     def _cmp(self, o, op):
